@@ -14,6 +14,8 @@ argument is converted with str() first, so that Markup.__add__/__radd__
 escaping (a markupsafe rule, not Mako's) never enters a comparison.
 """
 
+import decimal
+
 import markupsafe
 
 
@@ -115,11 +117,52 @@ NL0, NL1, NL2, NL3 = [w.encode("latin-1") for w in _WL]
 NA0, NA1, NA2, NA3 = [w.encode("ascii") for w in _WA]
 
 
+# values that are equal (and hash alike) but read differently, a value whose text changes, for filters that can
+# receive a non-string
+DEC1 = decimal.Decimal("1")
+DEC10 = decimal.Decimal("1.0")
+
+
+class _Eq:
+    """all instances are equal and hash alike; their text differs"""
+
+    def __init__(self, text):
+        self.text = text
+
+    def __eq__(self, other):
+        return isinstance(other, _Eq)
+
+    def __hash__(self):
+        return 7
+
+    def __str__(self):
+        return self.text
+
+
+EQA = _Eq("obj-A<&")
+EQB = _Eq("obj-B<&")
+
+
+class _Mut:
+    """one object whose text is set just before each render: "@helper:MUT=<text>" """
+
+    text = "?"
+
+    def __str__(self):
+        return self.text
+
+
+MUT = _Mut()
+
+
 def resolve(ctx):
     """rebuild a render context from its JSON form ("@helper:<name>" -> object of this module)"""
     out = {}
     for k, v in ctx.items():
-        if isinstance(v, str) and v.startswith("@helper:"):
+        if isinstance(v, str) and v.startswith("@helper:MUT="):
+            MUT.text = v[len("@helper:MUT=") :]
+            out[k] = MUT
+        elif isinstance(v, str) and v.startswith("@helper:"):
             out[k] = globals()[v[len("@helper:") :]]
         else:
             out[k] = v
